@@ -126,3 +126,89 @@ func genRestartTree(r *rand.Rand, ps *ParamSpec, now0 int64) *Tree {
 	}
 	return t
 }
+
+func (t *Tree) atHeight(h int) *Node {
+	if h == 0 {
+		return t.Nodes[0]
+	}
+	return t.main[h-1]
+}
+
+func (t *Tree) grow(r *rand.Rand, from *Node, l int, now0 int64) *Node {
+	c0 := from
+	for i := 0; i < l; i++ {
+		c0 = t.mine(r, c0, dtFor(r, c0), "", now0)
+	}
+	return c0
+}
+
+// genCpForkTree: see cpForkInfo. No retargeting: work = number of headers.
+func genCpForkTree(r *rand.Rand, ps *ParamSpec, now0 int64) *Tree {
+	ps.NoRetarget = true
+	t := newTree(mkParams(*ps, nil))
+	n := 10 + r.Intn(9)
+	t.main = nil
+	cur := t.Nodes[0]
+	for i := 0; i < n; i++ {
+		cur = t.mine(r, cur, dtFor(r, cur), "", now0)
+		t.main = append(t.main, cur)
+	}
+	c := 4 + r.Intn(n-6) // 4 .. n-3
+	dA := 1 + r.Intn(3)
+	fA := c - 1 - dA
+	fC := c - 1 - r.Intn(3)
+	if fC < 0 {
+		fC = 0
+	}
+	info := &cpForkInfo{c: int32(c)}
+	info.sideA = t.grow(r, t.atHeight(fA), dA, now0)
+	info.sideB = t.grow(r, t.atHeight(c), n-c+1, now0)
+	info.forkC = t.atHeight(fC)
+	info.sideC = t.grow(r, info.forkC, n-fC+1, now0)
+	t.cpf = info
+	ps.Checkpoints = []int{t.main[c-1].ID}
+	return t
+}
+
+// genFlipTree: see flipInfo.
+func genFlipTree(r *rand.Rand, ps *ParamSpec, now0 int64) *Tree {
+	ps.NoRetarget = true
+	t := newTree(mkParams(*ps, nil))
+	n := 8 + r.Intn(8)
+	cur := t.Nodes[0]
+	for i := 0; i < n; i++ {
+		cur = t.mine(r, cur, dtFor(r, cur), "", now0)
+		t.main = append(t.main, cur)
+	}
+	d := 1 + r.Intn(3)
+	info := &flipInfo{fork: t.atHeight(n - d), aTip: cur}
+	info.bTip = t.grow(r, info.fork, d+1, now0)
+	info.aExt = t.grow(r, cur, 2+r.Intn(2), now0)
+	t.flip = info
+	if r.Intn(3) == 0 {
+		ps.Checkpoints = []int{t.main[r.Intn(n-d)].ID}
+	}
+	return t
+}
+
+// genWfcpTree: see wfcpInfo.
+func genWfcpTree(r *rand.Rand, ps *ParamSpec, now0 int64) *Tree {
+	t := newTree(mkParams(*ps, nil))
+	n := 10 + r.Intn(7)
+	cur := t.Nodes[0]
+	for i := 0; i < n; i++ {
+		cur = t.mine(r, cur, dtFor(r, cur), "", now0)
+		t.main = append(t.main, cur)
+	}
+	c := 4 + r.Intn(n-6) // 4 .. n-3
+	j := r.Intn(3)
+	t0 := c - 1 - j
+	info := &wfcpInfo{c: int32(c), t0: t.atHeight(t0)}
+	info.side = t.grow(r, info.t0, j+2+r.Intn(3), now0)
+	t.wfc = info
+	ps.Checkpoints = []int{t.main[c-1].ID}
+	if r.Intn(2) == 0 && c+2 <= n {
+		ps.Checkpoints = append(ps.Checkpoints, t.main[c+1+r.Intn(n-c-1)].ID)
+	}
+	return t
+}
